@@ -158,10 +158,20 @@ func (m *Machine) call(caller *frame, pos token.Pos, fn Value, args []Value) Val
 	panic(abort(fmt.Sprintf("cannot call %T", fn)))
 }
 
+// realCode: returned by an intrinsic that declines a call (the real body is executed).
+type realCode struct{}
+
 func (m *Machine) callSSA(caller *frame, pos token.Pos, fn *ssa.Function, args []Value, env []Value) Value {
 	if fn.Parent() == nil || fn.Synthetic == "" {
 		if in := m.eng.intrinsicFor(fn); in != nil {
-			return in(m, caller, args)
+			if r := in(m, caller, args); r != (realCode{}) {
+				return r
+			}
+		}
+	}
+	if fn.Pkg == m.eng.mainPkg || (fn.Signature.Recv() != nil && fn.Pkg == nil) {
+		if r, ok := m.cutCall(fn, args); ok {
+			return r
 		}
 	}
 	if fn.Blocks == nil {
